@@ -1081,6 +1081,31 @@ func (w *rsWorld) oracleC10(frames []rsFrame) string {
 	return ""
 }
 
+// rsCalmBits: what the implementation showed, for the classifier case
+func rsCalmBits(spy []spyEv, frames []rsFrame) (sv, gv int64) {
+	ended := map[int]bool{}
+	for _, e := range spy {
+		if ended[e.call] && e.kind != 6 {
+			sv = 1
+		}
+		if e.kind == 6 {
+			ended[e.call] = true
+		}
+	}
+	perID := map[uint32][]rsFrame{}
+	for _, f := range frames {
+		if f.typ == 0x04 || f.typ == 0x14 || f.typ == 0xff {
+			perID[f.id] = append(perID[f.id], f)
+		}
+	}
+	for _, seq := range perID {
+		if rsWireCheck(seq) != "" {
+			gv = 1
+		}
+	}
+	return
+}
+
 func rsWireString(seq []rsFrame) string {
 	var parts []string
 	for _, f := range seq {
@@ -1183,6 +1208,18 @@ func engineRelaySched(rng *rand.Rand, n int, tier string, o *Out, wire bool) {
 		in := append([]int64{int64(maxTombs), b2i(cancelOn), 2, int64(w.nmacro)}, w.macros...)
 		nontrivial := len(spy) > 2
 		o.Case("relaysched", id, in, obs, nontrivial, verdict)
+		// the same schedule judged by the PROVED classifier (Model/RelayCalm.v run_relaycalm): the
+		// model answers [1] iff the schedule is outside the class covered by C09_silent_after_end_calm /
+		// C10_relay_grammar_calm whenever the implementation shows a callback after End (sv) or a
+		// caller-side frame sequence that is not a prefix of an accepted word (gv)
+		sv, gv := rsCalmBits(spy, frames[0])
+		o.Case("relaycalm", id+"-calm", append(append([]int64(nil), in...), sv, gv), []int64{1}, nontrivial, "")
+		if sv != 0 {
+			o.Hist("impl-callback-after-End")
+		}
+		if gv != 0 {
+			o.Hist("impl-grammar-violation")
+		}
 		o.Hist(fmt.Sprintf("scenario=%d", scenario))
 		o.Hist(fmt.Sprintf("macros=%d", (w.nmacro/5)*5))
 		o.Hist(fmt.Sprintf("calls=%d", len(w.calls)))
